@@ -120,6 +120,9 @@ def evaluate(case, ctx):
     ref = C.run_serial(case, ctx, files)
     if ref.exit == 2:
         raise engine.Discard("cli-rejected")
+    if ref.exit != 0 and "Too many open files" in ref.stderr and ref.env_fired.get("emfile"):
+        # the descriptor limit was reached while the output files were opened: cutadapt raises its limit and goes on
+        return [C.V("file-set", f"serial: the run gave up at the descriptor limit (EMFILE) instead of raising it: {ref.stderr[-200:]!r}")]
     if ref.exit != 0:
         raise engine.Discard("reference-run-failed")
     viols, allrec, named = judge(case, ref, "serial")
